@@ -123,12 +123,29 @@ def _r1(ctx):
     # name split: mnemonic '-' operands '_'
     for q in ("db_interface._get_asmbench_output", "db_interface._get_ibench_output"):
         h = ctx.func(q)
-        mn = pm.find("M_m = M_s.split('-')[0]", h.node)
-        ops = pm.find("M_o = M_s.split('-')[1].split('_')", h.node)
-        dec = pm.find("M_o = [_create_db_operand(M_x, isa) for M_x in M_o]", h.node)
+        # expression level (held in locals or used in place): NAME.split('-')[0], NAME.split('-')[1].split(SEP), decode of each part
+        mn = [n for n in ast.walk(h.node) if pm.match("M_s.split('-')[0]", n) is not None]
+        ops = [(n, pm.match("M_s.split('-')[1].split(M_sep)", n)) for n in ast.walk(h.node)]
+        ops = [(n, b) for n, b in ops if b is not None]
+        seps = {U(b["M_sep"]) for _, b in ops}
         decs = C.calls_to(h.node, "_create_db_operand")
-        ctx.judge(bool(mn) and bool(ops) and bool(dec), bool(mn) or bool(ops) or not decs, "R1", "%s splits MNEMONIC-OP1_OP2 and decodes every operand" % h.name, h.where(),
-                  "%s no longer splits the form name at '-' / '_' and decodes each operand code" % h.name, q, "name split")
+        # every decode call sits in a comprehension / loop whose iterable is (a local holding) the operand split
+        def over_split(c):
+            p = C.parent(c)
+            while p is not None and not isinstance(p, (ast.ListComp, ast.GeneratorExp, ast.For, ast.FunctionDef)):
+                p = C.parent(p)
+            it = p.generators[0].iter if isinstance(p, (ast.ListComp, ast.GeneratorExp)) else getattr(p, "iter", None)
+            if it is None:
+                return False
+            if any(it is n for n, _ in ops):
+                return True
+            if isinstance(it, ast.Name):
+                return any(isinstance(a, ast.Assign) and any(a.value is n for n, _ in ops) for a in C.assigns_to(h.node, it.id))
+            return False
+        ok = bool(mn) and seps == {"'_'"} and bool(decs) and all(over_split(c) for c in decs)
+        ctx.judge(ok, bool(ops) or not decs, "R1", "%s splits MNEMONIC-OP1_OP2 and decodes every operand" % h.name, h.where(),
+                  "%s does not split the form name at '-' into mnemonic and operand part, the operand part at '_' (found %s), "
+                  "and decode each code" % (h.name, sorted(seps)), q, "name split")
 
 
 def _r2(ctx):
